@@ -544,7 +544,8 @@ def run_hdrworld(spec, ctx):
 def msgwin_body(ctx, start, offsets):
     """application messages handed to a real connection's message layer under generated message-sequence histories:
     a message is delivered exactly when it was not received before (inside the 256 window); a message that never arrived is
-    never treated as a duplicate while it is inside the window.  Older than the window: unspecified here (D3, C04)."""
+    never treated as a duplicate, inside the window or older.  Received before and now older than the window: unspecified
+    here (D3, C04)."""
     conn = ConnectionBase(True, ("h", 1))
     conn.clock = lambda: 1000.0
     conn.status = ConnectionStatus.CONNECTED
@@ -565,8 +566,11 @@ def msgwin_body(ctx, start, offsets):
             if newest - pos > 32:
                 flags.add("late>32")
         else:
-            exp = None
-            flags.add("beyond-256")
+            # older than the window.  Already received: unspecified here (D3, judged by C04).  Never received: it was not
+            # "already received inside the window", so it must not be treated as a duplicate (a retransmission keeps its
+            # message number however many newer messages overtook it)
+            exp = None if pos in received else True
+            flags.add("beyond-256" if exp is None else "beyond-256-never-received")
         if exp is not None and got != exp:
             ctx.violation("message-window-accept", "message seq %d (offset %+d from the newest): delivered=%r, model=%r (%s)" % (
                 ring(pos), d, got, exp, "never received before" if exp else "already received"))
